@@ -225,7 +225,7 @@ impl Report {
             *self.classes.entry(k).or_insert(0) += v;
         }
         for s in other.samples {
-            if self.samples.len() < 24 {
+            if self.samples.len() < 12 {
                 self.samples.push(s);
             }
         }
@@ -252,9 +252,26 @@ impl Report {
 }
 
 fn sample_of(obs: &Obs, case: &dyn Fn() -> Value) -> Value {
+    // keep evidence files readable: a very large structured case is represented by its rendering
+    let mut c = case();
+    let size = c.to_string().len();
+    if size > 6000 {
+        c = json!({ "omitted": format!("structured case is {size} bytes; see `shown`") });
+    }
+    let clip = |t: &String| -> String {
+        if t.len() > 4000 {
+            let mut end = 4000;
+            while !t.is_char_boundary(end) {
+                end -= 1;
+            }
+            format!("{} ...[{} bytes in total]", &t[..end], t.len())
+        } else {
+            t.clone()
+        }
+    };
     match &obs.show {
-        Some(text) => json!({ "shown": text, "nontrivial": obs.nontrivial, "case": case() }),
-        None => json!({ "nontrivial": obs.nontrivial, "case": case() }),
+        Some(text) => json!({ "shown": clip(text), "nontrivial": obs.nontrivial, "case": c }),
+        None => json!({ "nontrivial": obs.nontrivial, "case": c }),
     }
 }
 
